@@ -35,8 +35,8 @@ CHECKS = {
         "evaluator sat (direct reading of the statement); corollaries: result set = filter sat, text literals literal, negation = complement, negated "
         "comparison needs the property. Both evaluators are tied to the code on real indexes built by `db create`: implementation result vs sat vs SQL "
         "model, universe read back from raw SQLite rows.",
-        note=NOTE_STD + "SQLite/SQLAlchemy behaviour is modelled (Model/Sql.lean), not verified; typed comparisons on values that do not parse in the filter's "
-        "type are open; ASCII, lower-case page/link names (LIKE folds case).",
+        note=NOTE_STD + "SQLite/SQLAlchemy behaviour is modelled (Model/Sql.lean), not verified; date comparisons on digit-free values never hold (date() is NULL), other values that do "
+        "not parse in the filter's type are open; ASCII, lower-case page/link names (LIKE folds case).",
         technique="Lean 4 proof (SQL meaning refines spec evaluator; LIKE-escape lemma) + index correspondence",
         design="§4 C03",
     ),
@@ -67,7 +67,7 @@ CHECKS = {
         "ORDER BY key, selections = distinct values (sorted under alpha), count = length; plus the kernel-checked counterexample for `O none`. "
         "The model's rendering is compared character by character with swog.execute on real indexes (all select forms, 0-4 grouping dimensions, "
         "order lists 0-4) and the output is compared with an independent rendering of the statement.",
-        note=NOTE_STD + "The WHERE result and Note.to_string are taken from the implementation (C03 / C12). `O none` string comparison is a recorded known finding.",
+        note=NOTE_STD + "Which rows match is taken from the emitted SQL (C03); the matching notes themselves are compiled from the files by (page, line), independently of the repo's row-to-note resolution; dates from the index rows; Note.to_string from the implementation (C12). For value selections without `O alpha` the set of values per group is compared (the statement fixes no order). `O none` string comparison is a recorded known finding.",
         technique="Lean 4 proof (permutation / sortedness invariants of group-order-select) + output correspondence",
         design="§4 C09",
     ),
